@@ -41,6 +41,10 @@ pub enum X {
     Exists(bool, Box<Sel>),
     /// expr [NOT] IN (subquery)
     InSub(Box<X>, bool, Box<Sel>),
+    /// MySQL / Postgres: `expr op ANY|SOME|ALL (subquery)` — (expr, comparison, 0 any / 1 some / 2 all, subquery)
+    SubOp(Box<X>, BinOper, u8, Box<Sel>),
+    /// a keyword atom: CURRENT_TIMESTAMP / CURRENT_DATE / CURRENT_TIME, or a custom keyword
+    Kw(&'static str),
     /// scalar subquery
     Scalar(Box<Sel>),
     /// opaque custom fragment (a plain word)
@@ -234,6 +238,12 @@ impl X {
                     ("LEAST", _) => Func::least(a).into(),
                     ("CHAR_LENGTH", 1) => Func::char_length(a[0].clone()).into(),
                     ("COUNT_DISTINCT", 1) => Func::count_distinct(a[0].clone()).into(),
+                    ("AVG", 1) => Func::avg(a[0].clone()).into(),
+                    ("BIT_AND", 1) => Func::bit_and(a[0].clone()).into(),
+                    ("BIT_OR", 1) => Func::bit_or(a[0].clone()).into(),
+                    ("MD5", 1) => Func::md5(a[0].clone()).into(),
+                    ("RANDOM", 0) => Func::random().into(),
+                    ("ROUND", 2) => Func::round_with_precision(a[0].clone(), a[1].clone()).into(),
                     (n, _) => Func::cust(Alias::new(n)).args(a).into(),
                 }
             }
@@ -268,6 +278,21 @@ impl X {
                 }
             }
             X::Scalar(s) => SimpleExpr::SubQuery(None, Box::new(crate::apply::sel(s).into_sub_query_statement())),
+            X::SubOp(e, op, kind, s) => {
+                let q = crate::apply::sel(s);
+                let sub = match kind {
+                    0 => Expr::any(q),
+                    1 => Expr::some(q),
+                    _ => Expr::all(q),
+                };
+                e.build().binary(*op, sub)
+            }
+            X::Kw(k) => match *k {
+                "CURRENT_TIMESTAMP" => Expr::current_timestamp().into(),
+                "CURRENT_DATE" => Expr::current_date().into(),
+                "CURRENT_TIME" => Expr::current_time().into(),
+                other => Expr::custom_keyword(Alias::new(other)).into(),
+            },
             X::Cust(w) => Expr::cust(w.as_str()),
             X::AsEnum(t, e) => e.build().as_enum(Alias::new(t.as_str())),
             X::CustWith(pieces, args, numbered) => {
@@ -369,7 +394,8 @@ impl X {
                     e.expected(d)
                 }
             }
-            X::Val(_) | X::Exists(..) | X::InSub(..) | X::Scalar(_) | X::CustWith(..) => {
+            X::Kw(k) => PX::Kw(k.to_string()),
+            X::Val(_) | X::Exists(..) | X::InSub(..) | X::Scalar(_) | X::CustWith(..) | X::SubOp(..) => {
                 unimplemented!("statement-level nodes are compared through the reference renderer, not expected()")
             }
         }
@@ -388,8 +414,8 @@ impl X {
     pub fn children(&self) -> Vec<&X> {
         match self {
             X::Col(_) | X::Int(_) | X::Text(_) | X::Null | X::Bool(_) => vec![],
-            X::QCol(..) | X::Val(_) | X::Star | X::Exists(..) | X::Scalar(_) | X::Cust(_) => vec![],
-            X::InSub(e, _, _) | X::AsEnum(_, e) => vec![e],
+            X::QCol(..) | X::Val(_) | X::Star | X::Exists(..) | X::Scalar(_) | X::Cust(_) | X::Kw(_) => vec![],
+            X::InSub(e, _, _) | X::AsEnum(_, e) | X::SubOp(e, _, _, _) => vec![e],
             X::CustWith(_, args, _) => args.iter().collect(),
             X::Not(e) | X::IsNull(e, _) | X::Cast(e, _) => vec![e],
             X::Bin(l, _, r) => vec![l, r],
@@ -426,6 +452,8 @@ impl X {
             X::Exists(..) => "EXISTS".into(),
             X::InSub(_, n, _) => if *n { "NOT IN(sub)" } else { "IN(sub)" }.into(),
             X::Scalar(_) => "(sub)".into(),
+            X::SubOp(_, _, k, _) => ["ANY(sub)", "SOME(sub)", "ALL(sub)"][*k as usize % 3].into(),
+            X::Kw(k) => k.to_string(),
             X::AsEnum(..) => "AS ENUM".into(),
             X::CustWith(..) => "custom".into(),
         }
